@@ -700,7 +700,7 @@ StepLeader(c, n, d, m, rto) ==
          IN  OK([n1 EXCEPT !.prs = [k \in DOMAIN @ |-> IF @[k].id # c.id THEN [@[k] EXCEPT !.recentActive = FALSE] ELSE @[k]]])
     [] m.type = "Prop" -> StepLeaderProp(c, n, d, m.entries)
     [] m.type = "ReadIndex" ->
-         IF IsSingleton(n) THEN OK(RespondRead(c, n, m, n.commit))
+         IF IsSingleton(n) /\ Guard("singleton_read_needs_own_vote", c.id \in VotersIn(n.cfg)) THEN OK(RespondRead(c, n, m, n.commit))
          ELSE IF Guard("ro_wait_own_term_commit", ~CommittedEntryInCurrentTerm(n, d)) /\ ~CommittedEntryInCurrentTerm(n, d)
               THEN OK([n EXCEPT !.pendingReads = Append(@, m)])
          ELSE OK(SendReadIndexResponse(c, n, d, m))
